@@ -530,6 +530,10 @@ class Interp:
         if op=='getelementptr':
             rest=re.sub(r'^inbounds\s+','',rest); args=split_top(rest); bt,_=s.tp.parse(args[0]); p=s.typed(env,args[1])[1]; idx=[s.typed(env,a)[1] for a in args[2:]]
             env[res]=s.gep(bt,p,idx); return
+        if op in ('load','store') and rest.startswith('atomic '):
+            rest=re.sub(r'^atomic (volatile )?','',rest); rest=re.sub(r'\s+(syncscope\("[^"]*"\)\s+)?(unordered|monotonic|acquire|release|acq_rel|seq_cst)(?=,|$)','',rest)
+        if op in ('load','store') and rest.startswith('volatile '): rest=rest[9:]
+        if op=='fence': return
         if op=='load':
             args=split_top(rest); t,_=s.tp.parse(args[0]); p=s.typed(env,args[1])[1]; env[res]=s.loadt(p,resolve(t)); return
         if op=='store':
